@@ -157,7 +157,7 @@ void simheap_end_run(void)
     unsigned i;
     for (i = 0; i < nblks; i++) {
         if (!blks[i].released) {
-            __real_free(SIM_ASAN ? blks[i].user : blks[i].user - CAN);
+            __real_free(SIM_REALFREE ? blks[i].user : blks[i].user - CAN);
             blks[i].released = 1;
         }
     }
@@ -180,9 +180,9 @@ static struct blk *blk_new(size_t size, int tag)
         capblks = capblks ? capblks * 2 : 1024;
         blks = __real_realloc(blks, sizeof(*blks) * capblks);
     }
-    if (!SIM_ASAN && hcfg.realloc_policy == RP_INPLACE_FIT && tag == TAG_LIB)
+    if (!SIM_REALFREE && hcfg.realloc_policy == RP_INPLACE_FIT && tag == TAG_LIB)
         alloc = size + prng_below(&hprng, 65);
-#if SIM_ASAN
+#if SIM_REALFREE
     real = __real_malloc(size ? size : 1);
     if (real == NULL) return NULL;
     memset(real, hcfg.junk, size);
@@ -211,7 +211,7 @@ static struct blk *blk_new(size_t size, int tag)
 
 static void quarantine_trim(void)
 {
-#if !SIM_ASAN
+#if !SIM_REALFREE
     while (quarantine_bytes > QUARANTINE_CAP && quarantine_head < nblks) {
         struct blk *b = &blks[quarantine_head++];
         if (!b->live && !b->released) {
@@ -233,7 +233,7 @@ static void blk_release(struct blk *b)
         int qi;
         for (qi = 0; qi < nquick; qi++) if (quick[qi] == (int)(b - blks)) { quick[qi] = quick[--nquick]; break; }
     }
-#if SIM_ASAN
+#if SIM_REALFREE
     b->released = 1;
     /* keep mapping until the address is reused: lets double free be seen by us too */
     __real_free(b->user);
@@ -276,7 +276,7 @@ void simheap_op_end(void)
 {
     /* counters for the *next* op start at zero; keep last-op values readable */
     fail_in_op = 0;
-#if !SIM_ASAN
+#if !SIM_REALFREE
     {
         /* the library call just returned (or aborted): before any harness code trusts memory again,
          * make sure it did not write outside the blocks it owns */
@@ -413,7 +413,7 @@ void *__wrap_realloc(void *p, size_t size)
     verdict = alloc_verdict(size, b->size);
     if (verdict) { hev('X', i, size); return NULL; }
 
-#if !SIM_ASAN
+#if !SIM_REALFREE
     if ((hcfg.realloc_policy == RP_INPLACE_SHRINK && size <= b->size)
         || (hcfg.realloc_policy == RP_INPLACE_FIT && size <= b->alloc)) {
         if (size > b->size) memset(b->user + b->size, hcfg.junk, size - b->size);
@@ -520,7 +520,7 @@ uint64_t simheap_live_bytes(int tag)
 
 int simheap_check_canaries(void)
 {
-#if !SIM_ASAN
+#if !SIM_REALFREE
     unsigned i, k;
     for (i = 0; i < nblks; i++) {
         struct blk *b = &blks[i];
@@ -536,7 +536,7 @@ int simheap_check_canaries(void)
 
 int simheap_check_poison(void)
 {
-#if !SIM_ASAN
+#if !SIM_REALFREE
     unsigned i; size_t k;
     for (i = 0; i < nblks; i++) {
         struct blk *b = &blks[i];
